@@ -364,3 +364,38 @@ func checkMaskConversionCoversAllSIMDs(c *core.Ctx) {
 		}
 	}
 }
+
+// R02.25: the loops of the emulator's FLAT handlers have constant bounds.
+func checkFlatHandlerLoopsConstant(c *core.Ctx) {
+	st := c.Rule("R02.25", "in the emulator's FLAT load/store handlers (runFlat* of amd/emu and amd/emu/cdna3) every counted loop is bounded by a constant: the iteration space - 64 lanes, the dwords of the access - is fixed by the instruction, and a lane takes part or not through its EXEC bit alone. The timing coalescer walks all 64 lanes and tests each bit; a handler that bounds its lane loop by something computed from EXEC (the first clear bit, a population count) skips active lanes behind a gap in the mask, and memory differs between the two modes", 10)
+	for _, rel := range []string{emuPkg, cdna3Pkg} {
+		for _, fn := range c.SrcFuncs(rel) {
+			if !strings.HasPrefix(fn.Name(), "runFlat") {
+				continue
+			}
+			for _, hdr := range fn.Blocks {
+				if len(hdr.Succs) != 2 || !inCycle(hdr) {
+					continue
+				}
+				iff, ok := hdr.Instrs[len(hdr.Instrs)-1].(*ssa.If)
+				if !ok {
+					continue
+				}
+				bo, ok := iff.Cond.(*ssa.BinOp)
+				if !ok || bo.Op != token.LSS {
+					continue
+				}
+				if _, isPhi := bo.X.(*ssa.Phi); !isPhi {
+					continue
+				}
+				c.MarkAnalysed(fn)
+				st.Instances++
+				_, isConst := bo.Y.(*ssa.Const)
+				st.Ob(isConst)
+				if !isConst {
+					c.ReportAt("R02.25", fn, bo.Pos(), "flat-loop-bound-not-constant", core.FuncName(fn)+" bounds a loop by a computed value: lanes (or dwords) behind the bound are not executed")
+				}
+			}
+		}
+	}
+}
